@@ -211,6 +211,21 @@ def run_check(prop: str, tier: str) -> int:
                 path = common.save_replay(prop, {"kind": "calc", "property": prop, "clause": clause, "scenario": {"calls": [call]},
                                                  "observed": traces[i]["ev"][idx - 1]["res"]})
                 rep.violation(path, f"clause {clause}: get_task_delay returned {traces[i]['ev'][idx - 1]['res']} for {json.dumps(call)[:300]}")
+    # ---- the same decision taken inside the running scheduler loop (slow sources: the instant of consideration is after the listing)
+    from engine import sch_check
+    loop_map = {"C13": ("C15_CronMissed", "C15_CronExtra"), "C14": ("C15_Late", "C15_NotEarly", "C15_Unexpected", "C15_Missing")}[prop]
+    lscns = sch_check.gen_latency(seed, 150 if q else 2000) + list(sch_check.gen_sweep(full=False))[:: (4 if q else 1)]
+    ltraces = mbt.drive("engine.sch_check", "_drive_one", lscns)
+    lverd = mbt.observe(ltraces, "ObsSched", shards=8)
+    for i, v in enumerate(lverd):
+        for clause, idx in v.items():
+            if clause not in loop_map:
+                continue
+            viol_n += 1
+            if viol_n <= 5:
+                path = common.save_replay(prop, {"kind": "sched", "property": prop, "clause": clause, "event_index": idx,
+                                                 "scenario": {"cfg": lscns[i]["cfg"], "steps": lscns[i].get("steps", [])}})
+                rep.violation(path, f"inside the scheduler loop: clause {clause} false after event {idx} (family {lscns[i].get('family')})")
     distinct = len({json.dumps(e, sort_keys=True) for t in traces for e in t["ev"]})
     samples = [{"call": scns[i]["calls"][j], "result": traces[i]["ev"][j]["res"]} for i, j in ((0, 0), (len(scns) - 1, 0), (len(scns) // 2, 1))
                if j < len(scns[i]["calls"])]
@@ -223,6 +238,7 @@ def run_check(prop: str, tier: str) -> int:
                  "Cron.tla!DelayOK; non-trivial = a positive delay was computed (T inside the horizon)"),
         "distinct_calls": distinct, "due_or_immediate": n_due, "positive_delay": n_sched,
         "skipped_tz_disagreement": scns[0].get("skipped_tz_disagreement", 0),
+        "scheduler_loop_runs": len(ltraces),
         "checker_cmd": "tlc ObsCalc (verdict per recorded call) / MC_Cron (calendar arithmetic self-check 1970-2100, delay relation totality)",
         "exhaustive": False,
     }
@@ -238,6 +254,15 @@ def run_check(prop: str, tier: str) -> int:
 def replay(prop: str, path: str) -> int:
     with open(path) as f:
         doc = json.load(f)
+    if doc.get("kind") == "sched":
+        from engine import sch_check
+        traces = mbt.drive("engine.sch_check", "_drive_one", [doc["scenario"]])
+        v = mbt.observe(traces, "ObsSched", shards=1)[0]
+        print("clauses false:", v)
+        if doc["clause"] in v:
+            print(f"VIOLATION property={prop} replay={path}")
+            return 1
+        return 0
     traces = mbt.drive("engine.calc_check", "_drive_one", [doc["scenario"]])
     v = mbt.observe(traces, "ObsCalc", shards=1, per_shard_min=1)[0]
     print("result:", traces[0]["ev"][0]["res"], "clauses false:", v)
